@@ -153,4 +153,3 @@ Section Types.
 End Types.
 
 Arguments hg_empty {O A}.
-Arguments SourcesCount {_ _}.
